@@ -397,6 +397,39 @@ def _check_collect(check, an: Analysis, collect: Callee):
                 good &= own is False or earlier
         if not good:
             concurrent_ok, bad_conc = False, bad_conc or (path, end - 1)
+    # (5) nothing else is left out: in a loop that collects, a failure that is passed over
+    # was found suppressed (or privileged, which ends the search) -- no further filter
+    # (equality with one already collected, a limit, ...) drops a failure
+    def _collects(it, path):
+        return any(
+            (event.kind == 'call' and isinstance(event.node, ast.Call) and isinstance(
+                event.node.func, ast.Attribute) and event.node.func.attr == 'append'
+             and [ast.unparse(a) for a in event.node.args] == [it.var]) or
+            (event.kind == 'element' and ast.unparse(event.node) == it.var)
+            for _pos, event in it.events())
+    collecting = set()
+    for path in paths:
+        for it in rules.iterations(path):
+            if it.source == FAILURES and _collects(it, path):
+                collecting.add(id(it.node))
+    n_skipped, bad_skip = 0, None
+    for path in paths:
+        if path.kind != 'return':
+            continue
+        for it in rules.iterations(path):
+            if it.source != FAILURES or id(it.node) not in collecting or _collects(it, path):
+                continue
+            n_skipped += 1
+            atoms = it.atoms()
+            if is_a(atoms, it.var, 'SUPPRESS_CONCURRENT') is not True and \
+                    is_a(atoms, it.var, 'PROMOTE_CONCURRENT') is not True:
+                bad_skip = bad_skip or (path, it.start)
+    check.instance('C', 'passed-over-only-if-suppressed', bad_skip is None and n_skipped > 0,
+                   where_fn(cfn), 'a recorded failure that is not collected was found '
+                   'suppressed (or privileged): nothing else filters the failures '
+                   '(%d passed-over iterations on paths)' % n_skipped,
+                   path=rules.path_lines(*bad_skip) if bad_skip else None,
+                   analysed=n_skipped)
     check.instance('C', 'iterates-failures-in-order', order_ok and n_loops > 0,
                    where_fn(cfn), 'every loop runs directly over `self._child_failures` '
                    '(recording order; %d iterations on paths)' % n_loops)
